@@ -70,6 +70,25 @@ def write_replay(pid, n, obj):
     return p
 
 
+def lean_closure(module):
+    """the Frost.* modules `module` imports, transitively (by reading the import lines of the sources), itself included"""
+    import re
+    seen, todo = [], [module]
+    while todo:
+        m = todo.pop()
+        if m in seen:
+            continue
+        seen.append(m)
+        path = os.path.join(LEAN, *m.split(".")) + ".lean"
+        try:
+            src = open(path).read()
+        except OSError:
+            continue
+        for imp in re.findall(r"^import\s+(Frost\.[A-Za-z0-9_.]+)", src, re.M):
+            todo.append(imp)
+    return seen
+
+
 def run_check(pid, tier, seed):
     t0 = time.time()
     mod = load_prop(pid)
@@ -106,7 +125,11 @@ def run_check(pid, tier, seed):
         else:
             broken.append(t)
     if tier == "thorough" and lean_ok:
-        rc, out = sh(["lake", "env", "leanchecker", mod.LEAN_MODULE], cwd=LEAN)
+        # independent re-check of the compiled declarations: the property module and every Frost.* module it imports
+        # (transitively), so that the lemmas in Frost.Proofs.* are replayed too, not only the statements that use them
+        mods = lean_closure(mod.LEAN_MODULE)
+        rc, out = sh(["lake", "env", "leanchecker"] + mods, cwd=LEAN)
+        notes.append("leanchecker re-checked %d modules: %s" % (len(mods), " ".join(mods)))
         if rc != 0:
             broken.append("leanchecker:" + mod.LEAN_MODULE)
             notes.append("leanchecker: " + out[-800:])
